@@ -24,7 +24,10 @@ class SquaredError(torch.nn.Module):
         x : torch.tensor
             The values for which the squared error should be computed.
         """
-        return torch.sum(torch.square(x), dim=1)
+        # the space dimension is the last one, also for the batch layout
+        # (functions, points, dim) of the DeepONet conditions
+        squared = torch.square(x)
+        return torch.sum(squared, dim=1 if squared.dim() < 3 else -1)
 
 
 class Condition(torch.nn.Module):
